@@ -111,6 +111,13 @@ Theorem C13_fixed_memory :
     end.
 Proof. exact C13_stream_not_started. Qed.
 
+(** --complement (-m): a bound that does not resolve is not dropped from the complemented
+    list; it stays where it was, so that C13_general_path applies to it *)
+Theorem C13_complement_keeps_unresolvable :
+  forall (l : list bof) (n : nat) (b : ubound),
+    In (Bound b) l -> bound_nz b -> ~ resolves b n -> In (Bound b) (complement_items l n).
+Proof. exact C13_complement_keeps. Qed.
+
 Print Assumptions C13_unresolvable_iff.
 Print Assumptions C13_byte_mode.
 Print Assumptions C13_general_path.
@@ -123,3 +130,4 @@ Print Assumptions C13_resolvable_ignores_fallbacks_bytes.
 Print Assumptions C13_lines_one_at_a_time.
 Print Assumptions C13_lines_straddling_range_fails.
 Print Assumptions C13_fixed_memory.
+Print Assumptions C13_complement_keeps_unresolvable.
